@@ -1160,5 +1160,390 @@ class Overflow(Unit):
             rec.witness("second compile after in-memory split: same shaping")
 
 
+
+# =========================================================================================
+# (c) corpus tables x configuration lattice, differential against the reference configuration
+# =========================================================================================
+LAYOUT_TAGS = ("GDEF", "GSUB", "GPOS")
+RTL_SCRIPTS = {"arab", "hebr", "syrc", "thaa", "nko ", "adlm", "rohg", "mand"}
+
+FEA_GLYPHS = """
+    .notdef space slash fraction semicolon period comma ampersand
+    quotedblleft quotedblright quoteleft quoteright
+    zero one two three four five six seven eight nine
+    zero.oldstyle one.oldstyle two.oldstyle three.oldstyle
+    four.oldstyle five.oldstyle six.oldstyle seven.oldstyle
+    eight.oldstyle nine.oldstyle onequarter onehalf threequarters
+    onesuperior twosuperior threesuperior ordfeminine ordmasculine
+    A B C D E F G H I J K L M N O P Q R S T U V W X Y Z
+    a b c d e f g h i j k l m n o p q r s t u v w x y z
+    A.sc B.sc C.sc D.sc E.sc F.sc G.sc H.sc I.sc J.sc K.sc L.sc M.sc
+    N.sc O.sc P.sc Q.sc R.sc S.sc T.sc U.sc V.sc W.sc X.sc Y.sc Z.sc
+    A.alt1 A.alt2 A.alt3 B.alt1 B.alt2 B.alt3 C.alt1 C.alt2 C.alt3
+    a.alt1 a.alt2 a.alt3 a.end b.alt c.mid d.alt d.mid
+    e.begin e.mid e.end m.begin n.end s.end z.end
+    Eng Eng.alt1 Eng.alt2 Eng.alt3
+    A.swash B.swash C.swash D.swash E.swash F.swash G.swash H.swash
+    I.swash J.swash K.swash L.swash M.swash N.swash O.swash P.swash
+    Q.swash R.swash S.swash T.swash U.swash V.swash W.swash X.swash
+    Y.swash Z.swash
+    f_l c_h c_k c_s c_t f_f f_f_i f_f_l f_i o_f_f_i s_t f_i.begin
+    a_n_d T_h T_h.swash germandbls ydieresis yacute breve
+    grave acute dieresis macron circumflex cedilla umlaut ogonek caron
+    damma hamza sukun kasratan lam_meem_jeem noon.final noon.initial
+    by feature lookup sub table uni0327 uni0328 e.fina
+    idotbelow idotless iogonek acutecomb brevecomb ogonekcomb dotbelowcomb
+""".split() + ["cid%05d" % c for c in range(800, 1002)]  # the glyph set of Tests/feaLib/builder_test.py
+
+
+def fea_host():
+    from fontTools.fontBuilder import FontBuilder
+    from fontTools.ttLib.tables._g_l_y_f import Glyph
+
+    fb = FontBuilder(1000, isTTF=True)
+    fb.setupGlyphOrder(list(FEA_GLYPHS))
+    fb.setupCharacterMap({})
+    fb.setupGlyf({g: Glyph() for g in FEA_GLYPHS})
+    fb.setupHorizontalMetrics({g: (adv_of(i), 0) for i, g in enumerate(FEA_GLYPHS)})
+    fb.setupHorizontalHeader(ascent=800, descent=-200)
+    fb.setupNameTable({"familyName": "C06fea", "styleName": "Regular"})
+    fb.setupOS2()
+    fb.setupPost()
+    buf = io.BytesIO()
+    fb.font.save(buf)
+    return buf.getvalue()
+
+
+def _build_fea(args):
+    host, path = args
+    from fontTools.feaLib.builder import addOpenTypeFeatures
+
+    try:
+        font = TTFont(io.BytesIO(host))
+        addOpenTypeFeatures(font, path)
+        if not any(t in font for t in LAYOUT_TAGS):
+            return (os.path.basename(path), None, "no layout table")
+        buf = io.BytesIO()
+        font.save(buf)
+        return (os.path.basename(path), buf.getvalue(), None)
+    except Exception as e:  # feature files that are expected to be rejected
+        return (os.path.basename(path), None, "%s: %s" % (type(e).__name__, str(e)[:80]))
+
+
+def collect_glyph_names(obj, gset, out, seen):
+    """Every glyph name occurring anywhere inside a decompiled otTables tree."""
+    if isinstance(obj, str):
+        if obj in gset:
+            out.add(obj)
+    elif isinstance(obj, dict):
+        for k, v in obj.items():
+            collect_glyph_names(k, gset, out, seen)
+            collect_glyph_names(v, gset, out, seen)
+    elif isinstance(obj, (list, tuple, set, frozenset)):
+        for v in obj:
+            collect_glyph_names(v, gset, out, seen)
+    elif hasattr(obj, "__dict__"):
+        if id(obj) in seen:
+            return
+        seen.add(id(obj))
+        for v in vars(obj).values():
+            collect_glyph_names(v, gset, out, seen)
+
+
+def pre_extend(font):
+    """Configuration 'extension pre-applied': wrap every subtable of every GSUB/GPOS lookup."""
+    n = 0
+    for tag, ext_type in (("GSUB", 7), ("GPOS", 9)):
+        if tag not in font or font[tag].table.LookupList is None:
+            continue
+        for lookup in font[tag].table.LookupList.Lookup:
+            if lookup.LookupType == ext_type or not lookup.SubTable:
+                continue
+            cls = ot.lookupTypes[tag][ext_type]
+            wrapped = []
+            for st in lookup.SubTable:
+                e = cls()
+                e.Format = 1
+                e.ExtensionLookupType = lookup.LookupType
+                e.ExtSubTable = st
+                wrapped.append(e)
+            lookup.SubTable = wrapped
+            lookup.LookupType = ext_type
+            n += 1
+    return n
+
+
+def sfnt_tables(data, font_number):
+    """Raw tables of one face (tag -> bytes) and the sfnt version, read with a TTFont reader."""
+    f = TTFont(io.BytesIO(data), fontNumber=font_number) if font_number >= 0 else TTFont(io.BytesIO(data))
+    tabs = {tag: f.reader[tag] for tag in f.reader.keys()}
+    return tabs, f.reader.sfntVersion.encode("latin-1") if isinstance(f.reader.sfntVersion, str) else f.reader.sfntVersion
+
+
+class SeqShaper:
+    """Shapes a fixed, completely enumerated set of glyph sequences; results are kept as digests
+    per (script, direction, feature set, batch) so that two fonts can be compared batch by batch."""
+
+    def __init__(self, alphabet, outsider, maxlen, plans, pair_cap=None, triple_cap=None):
+        self.sep = outsider
+        A = list(alphabet) + [outsider]
+        groups = [[a] for a in A]
+        A2 = A if pair_cap is None or len(A) <= pair_cap else A[:pair_cap] + [outsider]
+        if maxlen >= 2:
+            groups += [[a, b] for a in A2 for b in A2]
+        if maxlen >= 3 and (triple_cap is None or len(A) <= triple_cap):
+            groups += [[a, b, c] for a in A for b in A for c in A]
+        self.groups = groups
+        self.plans = plans  # [(script ot tag, direction, features dict)]
+        self.batch = 4000
+
+    def nseq(self):
+        return len(self.groups) * len(self.plans)
+
+    def _shape(self, hbfont, seq, plan):
+        script, direction, feats = plan
+        buf = hb.Buffer()
+        buf.add_codepoints([PUA + g for g in seq])
+        buf.direction = direction
+        buf.set_script_from_ot_tag(script)
+        buf.language = "en"
+        buf.cluster_level = hb.BufferClusterLevel.MONOTONE_CHARACTERS
+        hb.shape(hbfont, buf, feats)
+        return [(i.codepoint, i.cluster, p.x_advance, p.y_advance, p.x_offset, p.y_offset) for i, p in zip(buf.glyph_infos, buf.glyph_positions)]
+
+    def batches(self):
+        for b0 in range(0, len(self.groups), self.batch):
+            yield b0, self.groups[b0:b0 + self.batch]
+
+    def digest(self, data):
+        face = hb.Face(hb.Blob(data))
+        font = hb.Font(face)
+        out = []
+        for plan in self.plans:
+            for _b0, part in self.batches():
+                seq = []
+                for g in part:
+                    seq.extend(g)
+                    seq.append(self.sep)
+                out.append(hash(tuple(self._shape(font, seq, plan))))
+        return out
+
+    def first_difference(self, data_a, data_b, index):
+        """Locate a minimal differing sequence inside batch `index` (failure path only)."""
+        nb = (len(self.groups) + self.batch - 1) // self.batch
+        plan = self.plans[index // nb]
+        b0 = (index % nb) * self.batch
+        fa, fb_ = hb.Font(hb.Face(hb.Blob(data_a))), hb.Font(hb.Face(hb.Blob(data_b)))
+        for g in self.groups[b0:b0 + self.batch]:
+            ra, rb = self._shape(fa, g, plan), self._shape(fb_, g, plan)
+            if ra != rb:
+                return plan, g, ra, rb
+        part = self.groups[b0:b0 + self.batch]
+        seq = []
+        for g in part:
+            seq.extend(g)
+            seq.append(self.sep)
+        return plan, "batch of %d sequences starting %s (differs only in context)" % (len(part), part[0]), None, None
+
+
+class Corpus(Unit):
+    name = "corpus"
+    rule = ("every distinct GSUB/GPOS/GDEF set of the corpus (AOTS lookup-type fonts and other vendored binaries, fonts compiled from Tests/**/*.ttx, Tests/feaLib/data/*.fea compiled onto the feaLib "
+            "test glyph set) x configuration lattice USE_HARFBUZZ_REPACKER {False, None, True} x extension pre-applied {no, yes} x GPOS compaction level ({0,1,5,9} quick / 0..9 thorough); tables "
+            "are decompiled, transformed by the configuration and recompiled; HarfBuzz shaping of ALL glyph sequences of length <= 2 (quick; length 3 for alphabets <= 12) / <= 3 (thorough, alphabets "
+            "<= 40) over the glyphs occurring in the tables + one outsider, for every script of the tables (ltr, and rtl for right-to-left scripts) with default features and with all features on, "
+            "must equal the reference configuration (pure-Python packer, no compaction, no extension); the reference must equal the untouched original bytes; distinct = each (font, configuration)")
+    chunk = 1
+    required_witnesses = ("AOTS font", "feature-file build", "ttx-compiled font", "configuration produced different bytes than the reference", "hb repacker used",
+                          "compaction rebuilt a PairPos format 2 subtable", "extension pre-applied", "GSUB shaping differs from no-GSUB baseline", "GPOS shaping differs from no-GPOS baseline")
+
+    def setup(self, tier, seed):
+        from oracles import corpus
+        import hashlib
+        import multiprocessing
+
+        fonts, seen = [], set()
+
+        def add(kind, name, data, num):
+            try:
+                tabs, ver = sfnt_tables(data, num)
+            except Exception:
+                return
+            if not any(t in tabs for t in LAYOUT_TAGS) or "maxp" not in tabs or "hmtx" not in tabs:
+                return
+            key = hashlib.sha256(b"|".join(tabs.get(t, b"") for t in LAYOUT_TAGS) + tabs["maxp"][4:6]).hexdigest()
+            if key in seen:
+                return
+            seen.add(key)
+            fonts.append((kind, name, tabs, ver))
+
+        for name, data, num in corpus.binary_faces():
+            if data[:4] in (b"wOFF", b"wOF2"):
+                continue
+            add("aots" if corpus.is_aots(name) else "binary", name, data, num)
+        for name, data in corpus.compiled_ttx():
+            add("ttx", name, data, -1)
+        host = fea_host()
+        paths = sorted(glob.glob(os.path.join(env.REPO, "Tests", "feaLib", "data", "*.fea")))
+        with multiprocessing.get_context("fork").Pool(min(16, os.cpu_count() or 1)) as pool:
+            built = pool.map(_build_fea, [(host, p_) for p_ in paths], chunksize=4)
+        self.fea_skipped = [(n, err) for n, d, err in built if d is None]
+        for n, d, _err in built:
+            if d is not None:
+                add("fea", "feaLib/data/" + n, d, -1)
+        self.fonts = fonts
+
+    def setup_replay(self):
+        self.setup("quick", 0)
+
+    def levels(self, tier):
+        return (0, 1, 5, 9) if tier == "quick" else tuple(range(10))
+
+    def cases(self, tier, seed):
+        # heavy fonts first
+        order = sorted(range(len(self.fonts)), key=lambda i: -sum(len(self.fonts[i][2].get(t, b"")) for t in LAYOUT_TAGS))
+        return [[i, self.fonts[i][1], tier, hbc] for i in order for hbc in HB_CFGS]
+
+    def bounds(self, tier, seed):
+        kinds = collections.Counter(f[0] for f in self.fonts)
+        return {"fonts": dict(kinds), "fea_files_not_compiling": len(self.fea_skipped), "levels": list(self.levels(tier)), "repacker": list(HB_CFGS), "extension": [0, 1],
+                "sequence_length": "<=2, 3 for alphabets <=12 (quick)" if tier == "quick" else "<=2, 3 for alphabets <=40", "pair_alphabet_cap": 128 if tier == "quick" else None}
+
+    def configure(self, tabs, ver, hbc, level, ext):
+        """Decompile the layout tables, apply the configuration, recompile; -> (tag->bytes, info)."""
+        font = TTFont(io.BytesIO(build_sfnt(tabs, ver)))
+        font.cfg[HB_OPT] = _CFGV[hbc]
+        font.cfg[LEVEL_OPT] = level
+        info = {}
+        for t in LAYOUT_TAGS:
+            if t in font:
+                font[t].ensureDecompiled()
+        if level and "GPOS" in font and font["GPOS"].table.LookupList is not None:
+            before = [[id(st) for st in l.SubTable] for l in font["GPOS"].table.LookupList.Lookup]
+            keep = [st for l in font["GPOS"].table.LookupList.Lookup for st in l.SubTable]  # keep ids alive
+            gpos_opt.compact(font, level)
+            after = [[id(st) for st in l.SubTable] for l in font["GPOS"].table.LookupList.Lookup]
+            info["compacted"] = before != after
+            info["compact-split"] = [len(x) for x in before] != [len(x) for x in after]
+            del keep
+        if ext:
+            info["extended"] = pre_extend(font)
+        out = {}
+        with Spy(limit=MAX_RESOLUTION_STEPS) as spy:
+            for t in LAYOUT_TAGS:
+                if t in font:
+                    out[t] = font[t].compile(font)
+        info["hb"] = spy.calls["hb.repack ok"]
+        return out, info, font
+
+    def check(self, case, rec):
+        idx, name, tier, hb_case = case
+        kind, _name, tabs, ver = self.fonts[idx]
+        quick = tier == "quick"
+        rec.witness({"aots": "AOTS font", "fea": "feature-file build", "ttx": "ttx-compiled font", "binary": "other binary font"}[kind])
+        (nglyphs,) = struct.unpack(">H", tabs["maxp"][4:6])
+        base = dict(tabs)
+        base["cmap"] = pua_cmap(nglyphs)
+
+        # reference configuration
+        ref_tabs, _info, font = self.configure(tabs, ver, "False", 0, 0)
+        order = font.getGlyphOrder()
+        gset = set(order)
+        names = set()
+        scripts, feats = set(), set()
+        for t in LAYOUT_TAGS:
+            if t in font:
+                collect_glyph_names(font[t].table, gset, names, set())
+                tb = font[t].table
+                if t != "GDEF":
+                    if tb.ScriptList:
+                        scripts.update(str(r.ScriptTag) for r in tb.ScriptList.ScriptRecord)
+                    if tb.FeatureList:
+                        feats.update(str(r.FeatureTag) for r in tb.FeatureList.FeatureRecord)
+        gid = font.getReverseGlyphMap()
+        alphabet = sorted(gid[n] for n in names)
+        outsider = next((g for g in range(nglyphs - 1, -1, -1) if order[g] not in names), None)
+        if outsider is None:
+            outsider = 0
+            rec.count("no outsider glyph available")
+        scripts = sorted(scripts) or ["DFLT"]
+        allon = {f: True for f in sorted(feats)}
+        plans = []
+        for sc in scripts:
+            for direction in (("ltr", "rtl") if sc in RTL_SCRIPTS else ("ltr",)):
+                plans.append((sc, direction, {}))
+                if allon:
+                    plans.append((sc, direction, allon))
+        maxlen = 3 if len(alphabet) <= (12 if quick else 40) else 2
+        shaper = SeqShaper(alphabet, outsider, maxlen, plans, pair_cap=128 if quick else None)
+
+        def full(layout):
+            t = {k: v for k, v in base.items() if k not in LAYOUT_TAGS}
+            t.update(layout)
+            return build_sfnt(t, ver)
+
+        ref_bytes = full(ref_tabs)
+        ref = shaper.digest(ref_bytes)
+        rec.evals(shaper.nseq())
+        # non-triviality: the tables do something to these sequences
+        if "GSUB" in ref_tabs and shaper.digest(full({k: v for k, v in ref_tabs.items() if k != "GSUB"})) != ref:
+            rec.witness("GSUB shaping differs from no-GSUB baseline")
+        if "GPOS" in ref_tabs and shaper.digest(full({k: v for k, v in ref_tabs.items() if k != "GPOS"})) != ref:
+            rec.witness("GPOS shaping differs from no-GPOS baseline")
+
+        def compare(label, data, fkey):
+            got = shaper.digest(data)
+            rec.evals(shaper.nseq())
+            if got != ref:
+                i = next(k for k, (a, b) in enumerate(zip(ref, got)) if a != b)
+                plan, seq, ra, rb = shaper.first_difference(ref_bytes, data, i)
+                rec.violation(fkey, "%s: %s shapes differently from the reference configuration; script=%s dir=%s features=%s glyphs %s"
+                              % (name, label, plan[0], plan[1], "all-on" if plan[2] else "default", seq), observed=rb, expected=ra)
+                return False
+            return True
+
+        # the untouched original bytes hold the same tables as the reference recompile
+        orig = {t: tabs[t] for t in LAYOUT_TAGS if t in tabs}
+        if orig != ref_tabs and hb_case == "False":
+            rec.count("reference recompile differs in bytes from the original")
+            compare("original binary tables", full(orig), "corpus:recompile-vs-original:%s" % kind)
+
+        seen_bytes = {tuple(sorted(ref_tabs.items())): "reference"}
+        for hbc in (hb_case,):
+            for ext in (0, 1):
+                for level in self.levels(tier):
+                    if (hbc, ext, level) == ("False", 0, 0):
+                        continue
+                    rec.nontrivial([name, hbc, ext, level])
+                    rec.state([name, hbc, ext, level])
+                    try:
+                        out, info, _f = self.configure(tabs, ver, hbc, level, ext)
+                    except _Runaway:
+                        rec.violation("corpus:resolution-does-not-terminate", "%s [repacker=%s ext=%s level=%s]" % (name, hbc, ext, level))
+                        continue
+                    except Exception as e:  # noqa: BLE001 - a configuration that cannot be produced; go on with the others
+                        import traceback
+
+                        rec.violation(self.exc_fkey(case, e), "%s [repacker=%s ext=%s level=%s]: unexpected %s: %s\n%s"
+                                      % (name, hbc, ext, level, type(e).__name__, e, "".join(traceback.format_exception(e)[-4:])))
+                        continue
+                    if info.get("hb"):
+                        rec.witness("hb repacker used")
+                    if info.get("compacted"):
+                        rec.witness("compaction rebuilt a PairPos format 2 subtable")
+                    if info.get("compact-split"):
+                        rec.witness("compaction split a subtable")
+                    if info.get("extended"):
+                        rec.witness("extension pre-applied")
+                    key = tuple(sorted(out.items()))
+                    if key in seen_bytes:
+                        rec.count("configurations with bytes equal to an already compared one")
+                        continue
+                    seen_bytes[key] = (hbc, ext, level)
+                    rec.witness("configuration produced different bytes than the reference")
+                    rec.transition()
+                    compare("configuration repacker=%s ext=%s level=%s" % (hbc, ext, level), full(out), "corpus:config-differs:%s" % kind)
+
+
 def units():
-    return [Overflow(), ControlLoop()]
+    return [Overflow(), Corpus(), ControlLoop()]
